@@ -181,11 +181,17 @@ Applies(m, route) ==
       [] OTHER               -> TRUE
 
 (* ---- UGRID ---------------------------------------------------------------- *)
+UgridSlice(d) == d.names = "arbitrary" /\ d.topo = "attr" /\ d.lon = "p360" /\ d.layout = "rows" /\ d.extras # "edge_only"
 UgridDs(m) ==
     { d \in [ start : { "0", "1", "absent" }, fill : { "none", "m1", "p999", "nan", "bigfill" },
-              dtype : { "int32", "int64", "float64" }, names : { "standard", "arbitrary" },
+              dtype : { "int32", "int64", "uint32", "float64" }, names : { "standard", "arbitrary" },
               topo : { "attr", "cfrole" }, lon : { "pm180", "p360" }, extras : { "none", "edges", "edge_only" },
-              layout : { "rows", "transposed" } ] :
+              layout : { "rows", "transposed" }, ftype : { "f64", "f32" } ] :
+        \* STORAGE of index tables (dtype) and coordinate arrays (ftype).  int64 / f64 is what the Grid itself uses - the
+        \* one storage for which a decoder needs no conversion and therefore makes no copy: it is crossed with every
+        \* other knob; the other storages are crossed with one slice of the knobs they are independent of.
+        /\ (d.dtype = "uint32" => d.fill \in { "none", "p999" } /\ UgridSlice(d))     \* -1 is not an unsigned value
+        /\ (d.ftype = "f32" => UgridSlice(d))
         /\ (d.fill = "nan" => d.dtype = "float64")         \* NaN needs float storage
         /\ (d.fill = "bigfill" => d.dtype = "int64")       \* the platform fill value only fits the platform integer
         /\ (d.fill = "none" => Uniform(m))                 \* without a fill value nothing can be padded
@@ -205,7 +211,7 @@ UgridStored(m, d) ==
         ef == d.extras = "edges" /\ (d.fill # "none" \/ IsClosed(m))
     IN [ route |-> "ugrid",
          attrs |-> Opt(d.start # "absent", [ start_index |-> b ]) @@ Opt(d.fill \in { "m1", "p999", "bigfill" }, [ fill_value |-> fv ]),
-         dtype |-> d.dtype, names |-> d.names, topo |-> d.topo, lon |-> d.lon,
+         dtype |-> d.dtype, ftype |-> d.ftype, names |-> d.names, topo |-> d.topo, lon |-> d.lon,
          \* face_axis: which axis of the stored face table the declared face_dimension is (1 = rows)
          face_axis |-> IF d.layout = "transposed" THEN 2 ELSE 1,
          face_node |-> IF d.layout = "transposed" THEN Transposed(EncTable(m.faces, Wd(m), b, fv), Wd(m))
@@ -220,10 +226,13 @@ UgridDecodeTable(src, T) ==
     IN [ r \in 1..Len(T) |-> [ j \in 1..Len(T[r]) |-> IF isfill(T[r][j]) THEN PAD ELSE T[r][j] - b ] ]
 
 (* ---- from_topology (explicit arrays) ----------------------------------------- *)
+TopoSlice(d) == d.via = "classmethod" /\ d.box = "ndarray" /\ d.dims = "no" /\ d.extras # "edge_only"
 TopoDs(m) ==
-    { d \in [ fill : { "none", "m1", "bigfill" }, start : { "0", "1" }, dtype : { "int32", "int64" },
+    { d \in [ fill : { "none", "m1", "bigfill" }, start : { "0", "1" }, dtype : { "int32", "int64", "uint32" },
               via : { "classmethod", "open_grid" }, extras : { "none", "edges", "edge_only" },
-              box : { "ndarray", "list", "readonly" }, dims : { "no", "yes" } ] :
+              box : { "ndarray", "list", "readonly" }, dims : { "no", "yes" }, ftype : { "f64", "f32" } ] :
+        /\ (d.dtype = "uint32" => d.fill = "none" /\ TopoSlice(d))
+        /\ (d.ftype = "f32" => TopoSlice(d))
         /\ (d.extras = "edge_only" => d.via = "classmethod")
         \* containers other than a writable ndarray, and dims_dict: independent of the other knobs
         /\ (d.box # "ndarray" => d.via = "classmethod" /\ d.dims = "no" /\ d.extras # "edge_only")
@@ -237,7 +246,7 @@ TopoStored(m, d) ==
     LET b == IF d.start = "1" THEN 1 ELSE 0
         fv == TopoFill(d)
         E == SrcEdges(m.faces)
-    IN [ route |-> "topology", fill_value |-> fv, start_index |-> b, dtype |-> d.dtype, via |-> d.via,
+    IN [ route |-> "topology", fill_value |-> fv, start_index |-> b, dtype |-> d.dtype, ftype |-> d.ftype, via |-> d.via,
          box |-> d.box, dims_dict |-> d.dims = "yes",
          face_node |-> EncTable(m.faces, Wd(m), b, fv),
          edge_node |-> IF d.extras # "none" THEN EncTable(E, 2, b, fv) ELSE <<>>,
@@ -315,9 +324,9 @@ Present(row) == SelectSeq(row, LAMBDA x : x # 0)
 MpasDualDecode(T) == [ r \in 1..Len(T) |-> LET p == Present(T[r]) IN [ j \in 1..Len(T[r]) |-> IF j <= Len(p) THEN p[j] - 1 ELSE PAD ] ]
 
 (* ---- SCRIP: corner lists, a smaller cell repeats its last corner ------------------------ *)
-ScripDs(m) == [ lon : { "pm180", "p360" }, units : { "degrees", "radians" } ]
+ScripDs(m) == [ lon : { "pm180", "p360" }, units : { "degrees", "radians" }, ftype : { "f64", "f32" } ]
 ScripStored(m, d) ==
-    [ route |-> "scrip", lon |-> d.lon, units |-> d.units, centres |-> TRUE, grid_area |-> AreaTags(Len(m.faces)),
+    [ route |-> "scrip", lon |-> d.lon, units |-> d.units, ftype |-> d.ftype, centres |-> TRUE, grid_area |-> AreaTags(Len(m.faces)),
       corners |-> [ f \in 1..Len(m.faces) |-> [ j \in 1..Wd(m) |->
                       IF j <= Len(m.faces[f]) THEN m.faces[f][j] ELSE m.faces[f][Len(m.faces[f])] ] ] ]
 \* number of corners of a stored row: trailing repetitions of the last corner are padding
@@ -334,7 +343,8 @@ ScripDecode(src) == [ f \in 1..Len(src.corners) |-> [ j \in 1..Len(src.corners[f
 ExoBlockCount(m, d) == LET k == Cardinality({ Len(m.faces[f]) : f \in 1..Len(m.faces) })
                        IN CASE d.blocks = "min" -> k [] d.blocks = "plus1" -> k + 1 [] d.blocks = "n11" -> 11 [] OTHER -> 12
 ExoDs(m) == { d \in [ coord : { "coord", "xyz" }, dtype : { "int32", "int64" }, order : { "asc", "desc" },
-                      blocks : { "min", "plus1", "n11", "n12" } ] :
+                      blocks : { "min", "plus1", "n11", "n12" }, ftype : { "f64", "f32" } ] :
+                /\ (d.ftype = "f32" => d.order = "asc" /\ d.blocks \in { "min", "n12" })
                 /\ (Uniform(m) => d.order = "asc")
                 /\ ExoBlockCount(m, d) <= Len(m.faces)           \* every block has an element
                 /\ (m.big => d.blocks \in { "min", "n12" }) }
@@ -355,7 +365,7 @@ ExoGroups(m, d) ==
 ExoPerm(m, d) == FlattenSeq(ExoGroups(m, d))                 \* 1-based source face positions, in element order
 ExoStored(m, d) ==
     LET G == ExoGroups(m, d)
-    IN [ route |-> "exodus", coord |-> d.coord, dtype |-> d.dtype,
+    IN [ route |-> "exodus", coord |-> d.coord, dtype |-> d.dtype, ftype |-> d.ftype,
          blocks |-> [ i \in 1..Len(G) |-> [ j \in 1..Len(G[i]) |->
                         [ c \in 1..Len(m.faces[G[i][j]]) |-> m.faces[G[i][j]][c] + 1 ] ] ] ]
 ExoDecode(src) ==
@@ -364,12 +374,14 @@ ExoDecode(src) ==
     IN [ r \in 1..Len(rows) |-> [ j \in 1..w |-> IF j <= Len(rows[r]) THEN rows[r][j] - 1 ELSE PAD ] ]
 
 (* ---- ESMF: numElementConn authoritative, start_index attribute (default 1) ----------------- *)
-EsmfDs(m) == { d \in [ start : { "absent", "0", "1" }, padv : { "m1", "zero", "junk" }, centres : { "no", "yes" }, lon : { "pm180", "p360" } ] :
-                 Uniform(m) => d.padv = "m1" }
+EsmfDs(m) == { d \in [ start : { "absent", "0", "1" }, padv : { "m1", "zero", "junk" }, centres : { "no", "yes" }, lon : { "pm180", "p360" },
+                       store : { "i32f64", "i64f64", "i32f32" } ] :
+                 /\ (Uniform(m) => d.padv = "m1")
+                 /\ (d.store = "i32f32" => d.lon = "p360" /\ d.padv \in { "m1", "junk" }) }
 EsmfStored(m, d) ==
     LET b == IF d.start = "0" THEN 0 ELSE 1
         pv == CASE d.padv = "m1" -> -1 [] d.padv = "zero" -> 0 [] OTHER -> 77
-    IN [ route |-> "esmf", lon |-> d.lon, centres |-> d.centres = "yes",
+    IN [ route |-> "esmf", lon |-> d.lon, centres |-> d.centres = "yes", store |-> d.store,
          elementArea |-> IF d.centres = "yes" THEN AreaTags(Len(m.faces)) ELSE <<>>,
          attrs |-> Opt(d.start # "absent", [ start_index |-> b ]),
          elementConn |-> EncTable(m.faces, Wd(m), b, pv),
@@ -380,10 +392,10 @@ EsmfDecode(src) ==
            IF j <= src.numElementConn[f] THEN src.elementConn[f][j] - b ELSE PAD ] ]
 
 (* ---- GEOS cube sphere: nf x (n+1) x (n+1) corner arrays; cell (t, y, x) has the four corners around it *)
-GeosDs(m) == [ lon : { "pm180", "p360" }, centres : { "no", "yes" } ]
+GeosDs(m) == [ lon : { "pm180", "p360" }, centres : { "no", "yes" }, ftype : { "f64", "f32" } ]
 GeosStored(m, d) ==
     LET n == m.cs
-    IN [ route |-> "geos", lon |-> d.lon, centres |-> d.centres = "yes", n |-> n,
+    IN [ route |-> "geos", lon |-> d.lon, centres |-> d.centres = "yes", n |-> n, ftype |-> d.ftype,
          corners |-> [ t \in 1..6 |-> [ y \in 1..(n + 1) |-> [ x \in 1..(n + 1) |->
                         CSIdIn(m.nodes, CSCorner(n, t, y - 1, x - 1)) ] ] ] ]
 GeosDecode(src) ==
@@ -396,7 +408,7 @@ GeosDecode(src) ==
            IN << C[t][y][x], C[t][y][x + 1], C[t][y + 1][x + 1], C[t][y + 1][x] >> ]
 
 (* ---- ICON: transposed 1-based tables, triangles ------------------------------------------------ *)
-IconDs(m) == { [ std |-> "std" ] }
+IconDs(m) == [ store : { "i32f64", "i64f64", "i64f32" } ]
 \* a boundary has 0 in the slot of the absent cell - wherever that slot is
 IconSlots(rows) == [ r \in 1..Len(rows) |-> [ j \in 1..Len(rows[r]) |-> rows[r][j] + 1 ] ]     \* -1 -> 0
 IconFaceFaces(faces) == [ f \in 1..Len(faces) |-> [ j \in 1..3 |->
@@ -408,7 +420,7 @@ IconEdgeFaces(faces, E) == [ k \in 1..Len(E) |->
                               IN IF Len(cs) = 2 THEN cs ELSE IF k % 2 = 1 THEN << -1, cs[1] >> ELSE << cs[1], -1 >> ]
 IconStored(m, d) ==
     LET E == SrcEdges(m.faces)
-    IN [ route |-> "icon", centres |-> TRUE,
+    IN [ route |-> "icon", centres |-> TRUE, store |-> d.store,
          vertex_of_cell        |-> Transposed(EncTable(m.faces, 3, 1, 0), 3),
          edge_vertices         |-> Transposed(EncTable(E, 2, 1, 0), 2),
          edge_of_cell          |-> Transposed(EncTable(SrcFaceEdges(m.faces, E), 3, 1, 0), 3),
@@ -448,11 +460,12 @@ GeoDecode(src) ==
 
 (* ---- face-vertex arrays ------------------------------------------------------------------------------- *)
 VertsDs(m) == { d \in [ coords : { "lonlat", "xyz" }, shape : { "many", "single" }, box : { "ndarray", "list", "tuple" },
-                        via : { "classmethod", "open_grid" } ] : TRUE }
+                        via : { "classmethod", "open_grid" }, ftype : { "f64", "f32" } ] :
+                  d.ftype = "f32" => d.box = "ndarray" /\ d.via = "classmethod" }
 VertsFaces(m, d) == IF d.shape = "single" THEN << m.faces[1] >> ELSE m.faces
 VertsStored(m, d) ==
     LET F == VertsFaces(m, d)
-    IN [ route |-> "verts", coords |-> d.coords, single |-> d.shape = "single", box |-> d.box, via |-> d.via,
+    IN [ route |-> "verts", coords |-> d.coords, single |-> d.shape = "single", box |-> d.box, via |-> d.via, ftype |-> d.ftype,
          corners |-> EncTable(F, MaxSize(F), 0, BIGFILL) ]          \* a padded slot holds the fill value in every coordinate
 VertsDecode(src) == [ f \in 1..Len(src.corners) |-> [ j \in 1..Len(src.corners[f]) |->
                         IF src.corners[f][j] = BIGFILL THEN PAD ELSE src.corners[f][j] ] ]
@@ -462,8 +475,8 @@ VertsDecode(src) == [ f \in 1..Len(src.corners) |-> [ j \in 1..Len(src.corners[f
 (* ======================================================================= *)
 \* on meshes of a few hundred faces one variant of every knob that is independent of the mesh size is kept
 ThinOK(route, d) ==
-    CASE route = "ugrid"    -> d.names = "arbitrary" /\ d.topo = "attr" /\ d.lon = "p360" /\ d.dtype \in { "int32", "float64" } /\ d.extras # "edge_only"
-      [] route = "topology" -> d.via = "classmethod" /\ d.box = "ndarray" /\ d.dims = "no" /\ d.dtype = "int32" /\ d.extras # "edge_only"
+    CASE route = "ugrid"    -> d.names = "arbitrary" /\ d.topo = "attr" /\ d.lon = "p360" /\ d.dtype \in { "int32", "int64", "float64" } /\ d.ftype = "f64" /\ d.extras # "edge_only"
+      [] route = "topology" -> d.via = "classmethod" /\ d.box = "ndarray" /\ d.dims = "no" /\ d.dtype \in { "int32", "int64" } /\ d.ftype = "f64" /\ d.extras # "edge_only"
       [] route = "verts"    -> d.box = "ndarray" /\ d.via = "classmethod"
       [] route = "esmf"     -> d.lon = "p360" /\ d.padv = "m1"
       [] route = "geo"      -> d.kind = "mixed"
